@@ -437,7 +437,11 @@ func Generate(profile string, seed int64) *engine.Scenario {
 	}
 	switch profile {
 	case "C01":
-		genC01(b)
+		if cold(seed) {
+			genStorm(b)
+		} else {
+			genC01(b)
+		}
 	case "C02":
 		genC02(b)
 	case "C03":
@@ -449,7 +453,11 @@ func Generate(profile string, seed int64) *engine.Scenario {
 	case "C04":
 		genC04(b)
 	case "C08":
-		genC08(b)
+		if cold(seed) {
+			genStorm(b)
+		} else {
+			genC08(b)
+		}
 	case "C09":
 		genC09(b)
 	case "C10":
@@ -464,6 +472,40 @@ func Generate(profile string, seed int64) *engine.Scenario {
 		panic("gen: unknown profile " + profile)
 	}
 	return sc
+}
+
+// ColdIndex0: run indices from here on (seed = base*1e9 + index) belong to runs that are the first and only run
+// of their process (the driver starts one process each): whatever the library initialises lazily - caches, pools,
+// once-only tables - is initialised during such a run. Its scenario is a storm: several goroutines issue the same
+// operations at the same instant, each answered validly.
+const ColdIndex0 = 900000000
+
+func cold(seed int64) bool { return seed%1000000000 >= ColdIndex0 }
+
+// IsCold: the seed belongs to a cold-start run.
+func IsCold(seed int64) bool { return cold(seed) }
+
+func genStorm(b *builder) {
+	r := b.r
+	sc := b.sc
+	b.base(baseOpt{minCtl: 1, maxCtl: 4, maxClients: 2})
+	ops := []model.Op{b.anyCallOp()}
+	for r.Intn(2) == 0 && len(ops) < 4 {
+		ops = append(ops, b.anyCallOp())
+	}
+	nt := 2 + r.Intn(5)
+	for t := 0; t < nt; t++ {
+		tk := engine.Task{}
+		for _, op := range ops {
+			client := r.Intn(len(sc.Clients))
+			T := sc.Clients[client].Timeout
+			serial, known := b.target()
+			a := model.GenArgs(r, op, serial)
+			st := b.callStep(client, op, a, known, pick(r, 0, 0, b.early(T)/4), model.ReplyOpts{})
+			tk.Steps = append(tk.Steps, st)
+		}
+		sc.Tasks = append(sc.Tasks, tk)
+	}
 }
 
 // ---- C01: requests on the wire -----------------------------------------------------------------
